@@ -11,6 +11,7 @@ pub mod validator_parser;
 use crate::models::{ChannelInfo, CommandInfo, EventInfo, StructInfo};
 use std::collections::{HashMap, HashSet};
 use std::path::{Path, PathBuf};
+use syn::ext::IdentExt;
 
 use ast_cache::AstCache;
 use channel_parser::ChannelParser;
@@ -504,7 +505,8 @@ impl CommandAnalyzer {
     ) -> Option<&'a syn::ItemFn> {
         for item in &ast.items {
             if let syn::Item::Fn(func) = item {
-                if func.sig.ident == function_name {
+                // command names are stored without the raw-identifier prefix
+                if func.sig.ident.unraw() == function_name {
                     return Some(func);
                 }
             }
